@@ -4,6 +4,7 @@ package app
 
 import (
 	"fmt"
+	"github.com/prometheus/common/model"
 	"os"
 	"path/filepath"
 	"sort"
@@ -16,8 +17,8 @@ import (
 
 	"github.com/prometheus/alertmanager/featurecontrol"
 	"github.com/prometheus/alertmanager/internal/verif/rep"
-	"github.com/prometheus/alertmanager/matcher/compat"
 	"github.com/prometheus/alertmanager/internal/verif/seqx"
+	"github.com/prometheus/alertmanager/matcher/compat"
 )
 
 // fx is one execution of the F-app fixture: real App + environment + ground truth.
@@ -179,20 +180,21 @@ type fEvent struct {
 }
 
 type fScenario struct {
-	prop     string
-	part     string
-	yaml     string
-	integs   map[string][]fInteg
-	mon      monCfg
-	fo       fOpts
-	events   []fEvent
-	tail     time.Duration
-	monitors []func(x *fx, attempts []fAttempt) *violation
-	depthQ   int
-	depthT   int
-	rt       time.Duration
+	prop       string
+	part       string
+	yaml       string
+	integs     map[string][]fInteg
+	mon        monCfg
+	fo         fOpts
+	events     []fEvent
+	tail       time.Duration
+	monitors   []func(x *fx, attempts []fAttempt) *violation
+	depthQ     int
+	depthT     int
+	rt         time.Duration
 	afterEvent func(x *fx) *violation
 	inhibit    map[string][]string
+	deadline   time.Time // zero: the test's whole budget
 }
 
 var fTmpRoot string
@@ -299,7 +301,11 @@ func (s *fScenario) explore(t *testing.T) {
 	if rep.Thorough() {
 		d = s.depthT
 	}
-	e := &seqx.Engine{Alphabet: names, MaxDepth: d, Report: R, Deadline: rep.Deadline(10 * time.Minute), Run: func(h []int) seqx.Result { return s.run(t, h) }}
+	dl := s.deadline
+	if dl.IsZero() {
+		dl = rep.Deadline(10 * time.Minute)
+	}
+	e := &seqx.Engine{Alphabet: names, MaxDepth: d, Report: R, Deadline: dl, Run: func(h []int) seqx.Result { return s.run(t, h) }}
 	e.Explore()
 	R.Write()
 }
@@ -428,6 +434,46 @@ func shortRepeat(t *testing.T, prop string) {
 			evAdvance(11 * time.Second), evAdvance(61 * time.Second), evAdvance(2*time.Minute + 1*time.Second),
 		}}
 	s.explore(t)
+}
+
+// The quantifier of C04 / C05 runs over all group_wait / group_interval / repeat_interval combinations. The other
+// scenarios use the customary shape (wait < interval < repeat, repeat a multiple of the interval); this one runs a small
+// event set over the unusual but legal shapes.
+func TestVerifC04AppTimings(t *testing.T) { timings(t, "C04") }
+func TestVerifC05AppTimings(t *testing.T) { timings(t, "C05") }
+
+func timings(t *testing.T, prop string) {
+	fInit(t)
+	combos := []struct {
+		name       string
+		gw, gi, ri time.Duration
+	}{
+		{"wait-above-interval", 30 * time.Second, 10 * time.Second, time.Minute},
+		{"repeat-equals-interval", 10 * time.Second, 30 * time.Second, 30 * time.Second},
+		{"repeat-not-a-multiple", 10 * time.Second, 30 * time.Second, 45 * time.Second},
+		{"no-wait", 0, 30 * time.Second, 2 * time.Minute},
+		{"repeat-far-below-interval", 10 * time.Second, 2 * time.Minute, 10 * time.Second},
+	}
+	deadline := rep.Deadline(10 * time.Minute)
+	for i, cb := range combos {
+		yaml := fmt.Sprintf("global:\n  resolve_timeout: 1m\nroute:\n  receiver: r1\n  group_by: [g]\n  group_wait: %s\n  group_interval: %s\n  repeat_interval: %s\nreceivers:\n- name: r1\n",
+			model.Duration(cb.gw), model.Duration(cb.gi), model.Duration(cb.ri))
+		if cb.gw == 0 {
+			yaml = strings.Replace(yaml, "group_wait: 0s", "group_wait: 0s", 1)
+		}
+		c := monCfg{gw: cb.gw, gi: cb.gi, repeat: cb.ri, slack: 20 * time.Second, retention: 10 * time.Minute, receiver: "r1", integs: fIntegs1["r1"]}
+		s := &fScenario{prop: prop, part: "app-timings-" + cb.name, yaml: yaml, integs: fIntegs1, mon: c, fo: defaultFOpts(), rt: time.Minute,
+			tail: 6 * time.Minute, depthQ: 3, depthT: 4, monitors: stdMonitors(c), deadline: rep.Share(deadline, i, len(combos)),
+			events: []fEvent{
+				{"fire A1 (end+1h)", func(x *fx) bool { x.fire("A1", "1", time.Hour); return true }},
+				{"fire A2 (heartbeat)", func(x *fx) bool { x.fire("A2", "1", 0); return true }},
+				{"resolve A1", func(x *fx) bool { x.resolve("A1", "1"); return true }},
+				{"all integrations: recoverable errors", func(x *fx) bool { x.setMode("", mRecoverable); return true }},
+				{"all integrations: ok", func(x *fx) bool { x.setMode("", mOK); return true }},
+				evAdvance(11 * time.Second), evAdvance(61 * time.Second), evAdvance(2*time.Minute + 1*time.Second),
+			}}
+		s.explore(t)
+	}
 }
 
 func TestVerifC05App(t *testing.T) {
